@@ -7,6 +7,7 @@
 import Avra.Model.Peg
 import Avra.Model.Eval
 import Avra.Model.Parse
+import Avra.Lemmas.Fuel
 namespace Avra.Props.C14
 open Avra Avra.Model Avra.Peg
 
@@ -708,6 +709,268 @@ theorem label_line (n ws c : Str) (hn : isName n) (hws : blanks ws) (hc : starts
   · unfold line
     simp only [optLabel, label, hid2, hsk2]
     simp [directive, operation, identText, comment]
+
+/-! ### whole lines: an instruction or macro call without operands, any blanks, any comment -/
+
+/-- first characters no expression, register or index operand starts with -/
+def noOperandStart (x : Char) : Prop := x = ';' ∨ x = '/'
+
+theorem prefix_heads (x : Char) (hx : noOperandStart x) : ∀ y ∈ prefixOps, y.1.head? ≠ some x := by
+  rcases hx with rfl | rfl <;> decide
+
+theorem lit_head_ne (t : Str) (x : Char) (xs : Str) (hne : t ≠ []) (h : t.head? ≠ some x) : lit t (x :: xs) = none := by
+  cases t with
+  | nil => exact absurd rfl hne
+  | cons c cs =>
+    have : c ≠ x := by intro hc; apply h; simp [hc]
+    simp [lit, this]
+
+theorem eConst_none (x : Char) (xs : Str) (hx : noOperandStart x) : eConst (x :: xs) = none := by
+  rcases hx with rfl | rfl <;> simp [eConst, constAlt, lit, takeWhileP, isDigit] <;> decide
+
+theorem atom_not_ok (x : Char) (xs : Str) (hx : noOperandStart x) : ∀ f e r, parseAtom f (x :: xs) ≠ .ok e r := by
+  intro f e r h
+  have hid : identText (x :: xs) = none := by rcases hx with rfl | rfl <;> simp [identText] <;> decide
+  have hch : ch (x :: xs) = none := by rcases hx with rfl | rfl <;> simp [ch]
+  have hpar : x ≠ '(' := by rcases hx with rfl | rfl <;> decide
+  cases f with
+  | zero => simp [parseAtom] at h
+  | succ f =>
+    simp only [parseAtom, hid, eConst_none x xs hx, hch] at h
+    split at h
+    · rename_i heq
+      split at heq
+      · rename_i r1 hc
+        simp only [List.cons.injEq] at hc
+        exact hpar hc.1
+      · simp at heq
+    · simp at h
+    · simp at h
+
+theorem tryPrefix_not_ok (x : Char) (xs : Str) (hx : noOperandStart x) :
+    ∀ (l : List (Str × UnOp × Nat)), (∀ y ∈ l, y.1 ≠ [] ∧ y.1.head? ≠ some x) → ∀ f e r, tryPrefix f l (x :: xs) ≠ .ok e r := by
+  intro l
+  induction l with
+  | nil =>
+    intro _ f e r h
+    cases f with
+    | zero => simp [tryPrefix] at h
+    | succ f => simp only [tryPrefix] at h; exact atom_not_ok x xs hx f e r h
+  | cons y more ih =>
+    intro hl f e r h
+    obtain ⟨t, u, lv⟩ := y
+    have ht := hl (t, u, lv) (List.mem_cons_self ..)
+    have hlit := lit_head_ne t x xs ht.1 ht.2
+    cases f with
+    | zero => simp [tryPrefix] at h
+    | succ f =>
+      simp only [tryPrefix, hlit] at h
+      exact ih (fun y hy => hl y (List.mem_cons_of_mem _ hy)) f e r h
+
+theorem expr_fails (x : Char) (xs : Str) (hx : noOperandStart x) : expr (x :: xs) = .fail := by
+  have hno := Avra.Lemmas.Fuel.expr_no_oof (x :: xs)
+  have hnok : ∀ e r, expr (x :: xs) ≠ .ok e r := by
+    intro e r h
+    unfold expr at h
+    generalize exprFuel (x :: xs) = f at h
+    cases f with
+    | zero => simp [parseInfix] at h
+    | succ f =>
+      simp only [parseInfix] at h
+      split at h
+      · rename_i e1 rest hp
+        cases f with
+        | zero => simp [parsePrefixAtom] at hp
+        | succ f =>
+          simp only [parsePrefixAtom] at hp
+          exact tryPrefix_not_ok x xs hx prefixOps
+            (fun y hy => ⟨Avra.Lemmas.Fuel.prefix_tokens y hy, prefix_heads x hx y hy⟩) f e1 rest hp
+      · simp at h
+      · simp at h
+  cases h : expr (x :: xs) with
+  | ok e r => exact absurd h (hnok e r)
+  | fail => rfl
+  | oof => exact absurd h hno
+
+theorem expr_fails_nil : expr [] = .fail := by decide
+
+/-- nothing that could be an operand starts with `;` or `/`, or with nothing -/
+theorem instructionOps_fails (c : Str) (hc : c = [] ∨ startsComment c) : instructionOps c = .fail := by
+  rcases hc with rfl | hc
+  · unfold instructionOps
+    simp [indexOps, reg16, reg8, expr_fails_nil]
+  · obtain ⟨x, xs, rfl⟩ : ∃ x xs, c = x :: xs := by
+      cases c with
+      | nil => rcases hc with h | h <;> simp at h
+      | cons x xs => exact ⟨x, xs, rfl⟩
+    have hx : noOperandStart x := by rcases hc with h | h <;> (simp at h; simp [noOperandStart, h])
+    have he := expr_fails x xs hx
+    have hr8 : reg8 (x :: xs) = none := by rcases hx with rfl | rfl <;> simp [reg8]
+    have hr16 : reg16 (x :: xs) = none := by rcases hx with rfl | rfl <;> simp [reg16]
+    have hm : x ≠ '-' := by rcases hx with rfl | rfl <;> decide
+    have hi : indexOps (x :: xs) = .fail := by
+      unfold indexOps
+      simp only [hr16]
+      split
+      · rename_i v r heq
+        split at heq
+        · rename_i r0 hc2; simp only [List.cons.injEq] at hc2; exact absurd hc2.1 hm
+        · simp at heq
+      · rfl
+    unfold instructionOps
+    simp only [hi, hr8, he]
+
+/-- the operation a (lower-cased) word denotes: a mnemonic, else a macro name -/
+def opOfWord (w : Str) : Op :=
+  match standardOperation w with
+  | some o => o
+  | none => .custom w
+
+/-- what may follow the last token of a line: nothing, or a comment in one of the three styles -/
+def lineEnd (c : Str) : Prop := c = [] ∨ (startsComment c ∧ comment c = some [])
+
+theorem tail_head (ws c : Str) (hws : blanks ws) (hc : lineEnd c) :
+    ∀ y, (ws ++ c).head? = some y → isIdentChar y = false ∧ y ≠ ':' := by
+  intro y h
+  cases ws with
+  | cons w ws' =>
+    simp at h; subst h
+    have hw : isSpace w = true := hws w (by simp)
+    simp only [isSpace, Bool.or_eq_true, beq_iff_eq] at hw
+    rcases hw with rfl | rfl <;> decide
+  | nil =>
+    rcases hc with rfl | ⟨hs, _⟩
+    · simp at h
+    · simp only [List.nil_append] at h
+      rcases hs with h2 | h2 <;> (rw [h] at h2; simp at h2; subst h2; decide)
+
+theorem skip_tail (ws c : Str) (hws : blanks ws) (hc : lineEnd c) : skipSpace (ws ++ c) = c := by
+  rcases hc with rfl | ⟨hs, _⟩
+  · have := space_absorbs ws [] hws
+    simpa [skipSpace] using this
+  · exact skip_to_comment ws c hws hs
+
+theorem opList_end (c : Str) (hc : lineEnd c) : opList c = .ok [] c := by
+  have hf : instructionOps c = .fail := instructionOps_fails c (by rcases hc with h | ⟨h, _⟩; exact Or.inl h; exact Or.inr h)
+  unfold opList sepList
+  simp only [hf]
+
+theorem skip_name (n rest : Str) (hn : isName n) : skipSpace (n ++ rest) = n ++ rest := by
+  obtain ⟨x, xs, rfl, hx, _⟩ := hn
+  have : isSpace x = false := by
+    cases hsp : isSpace x with
+    | false => rfl
+    | true =>
+      simp only [isSpace, Bool.or_eq_true, beq_iff_eq] at hsp
+      rcases hsp with rfl | rfl <;> simp [isIdentStart, isAlpha] at hx
+  simp [skipSpace, this]
+
+theorem directive_name (n rest : Str) (hn : isName n) : directive (n ++ rest) = none := by
+  obtain ⟨x, xs, rfl, hx, _⟩ := hn
+  have h1 : (x == '.') = false := by
+    cases h : x == '.' with
+    | false => rfl
+    | true => simp only [beq_iff_eq] at h; subst h; simp [isIdentStart, isAlpha] at hx
+  have h2 : (x == '#') = false := by
+    cases h : x == '#' with
+    | false => rfl
+    | true => simp only [beq_iff_eq] at h; subst h; simp [isIdentStart, isAlpha] at hx
+  simp [directive, h1, h2]
+
+theorem operation_name (n rest : Str) (hn : isName n) (hr : ∀ c, rest.head? = some c → isIdentChar c = false) :
+    operation (n ++ rest) = some (opOfWord (lower n), rest) := by
+  unfold operation opOfWord
+  rw [identText_name n rest hn hr]
+  simp only
+  split <;> simp_all
+
+/-- what the end of the line does to the rules that read it -/
+theorem end_facts (c : Str) (hc : lineEnd c) :
+    (comment (skipSpace c) = none ∧ skipSpace c = []) ∨ (comment (skipSpace c) = some []) := by
+  rcases hc with rfl | ⟨hs, hcom⟩
+  · left; simp [skipSpace, comment]
+  · right
+    have : skipSpace c = c := by
+      have := skip_to_comment [] c (by intro x hx; simp at hx) hs
+      simpa using this
+    rw [this, hcom]
+
+/-- **An instruction or macro call without operands**, indented or not, with any blanks and any
+    comment (or nothing) after it, is that operation with an empty operand list — whatever the
+    blanks and whatever the comment says -/
+theorem bare_instruction_line (ws1 n ws2 c : Str) (hws1 : blanks ws1) (hn : isName n) (hws2 : blanks ws2)
+    (hc : lineEnd c) :
+    line (ws1 ++ (n ++ (ws2 ++ c))) = .ok (.codeLine none (opOfWord (lower n)) []) := by
+  have hth := tail_head ws2 c hws2 hc
+  have hid : identText (n ++ (ws2 ++ c)) = some (n, ws2 ++ c) := identText_name n _ hn (fun y h => (hth y h).1)
+  have hlab : label (ws1 ++ (n ++ (ws2 ++ c))) = none := by
+    cases ws1 with
+    | nil =>
+      simp only [List.nil_append, label, hid]
+      cases htl : ws2 ++ c with
+      | nil => rfl
+      | cons y ys =>
+        have := (hth y (by rw [htl]; rfl)).2
+        split
+        · rename_i heq; simp only [Option.some.injEq, Prod.mk.injEq, List.cons.injEq] at heq; exact absurd heq.2.1 this
+        · rfl
+    | cons w ws' =>
+      have hw : isSpace w = true := hws1 w (by simp)
+      have : isIdentStart w = false := by
+        simp only [isSpace, Bool.or_eq_true, beq_iff_eq] at hw
+        rcases hw with rfl | rfl <;> decide
+      simp [label, identText, this]
+  have hsk : skipSpace (ws1 ++ (n ++ (ws2 ++ c))) = n ++ (ws2 ++ c) := by
+    rw [space_absorbs ws1 _ hws1, skip_name n _ hn]
+  have hop := operation_name n (ws2 ++ c) hn (fun y h => (hth y h).1)
+  have hst := skip_tail ws2 c hws2 hc
+  have hol := opList_end c hc
+  unfold line
+  simp only [optLabel, hlab]
+  simp only [hsk]
+  rw [directive_name n _ hn]
+  simp only [hop]
+  simp only [hst]
+  simp only [hol]
+  rcases end_facts c hc with ⟨h1, h2⟩ | h1
+  · simp only [h2]; simp [comment]
+  · simp only [h1]; simp
+
+
+
+/-- the same behind a label (glued to the colon or not) -/
+theorem labelled_bare_instruction_line (l ws1 n ws2 c : Str) (hl : isName l) (hws1 : blanks ws1) (hn : isName n)
+    (hws2 : blanks ws2) (hc : lineEnd c) :
+    line (l ++ ':' :: (ws1 ++ (n ++ (ws2 ++ c)))) = .ok (.codeLine (some (lower l)) (opOfWord (lower n)) []) := by
+  have hth := tail_head ws2 c hws2 hc
+  have hidl : identText (l ++ ':' :: (ws1 ++ (n ++ (ws2 ++ c)))) = some (l, ':' :: (ws1 ++ (n ++ (ws2 ++ c)))) :=
+    identText_name l _ hl (by intro y h; simp at h; subst h; decide)
+  have hsk : skipSpace (ws1 ++ (n ++ (ws2 ++ c))) = n ++ (ws2 ++ c) := by
+    rw [space_absorbs ws1 _ hws1, skip_name n _ hn]
+  have hop := operation_name n (ws2 ++ c) hn (fun y h => (hth y h).1)
+  have hst := skip_tail ws2 c hws2 hc
+  have hol := opList_end c hc
+  have hopt : optLabel (l ++ ':' :: (ws1 ++ (n ++ (ws2 ++ c)))) = (some (lower l), ws1 ++ (n ++ (ws2 ++ c))) := by
+    simp only [optLabel, label, hidl]
+  unfold line
+  rw [hopt]
+  dsimp only
+  simp only [hsk]
+  rw [directive_name n _ hn]
+  simp only [hop]
+  simp only [hst]
+  simp only [hol]
+  rcases end_facts c hc with ⟨h1, h2⟩ | h1
+  · simp only [h2]; simp [comment]
+  · simp only [h1]; simp
+
+/-! non-vacuity: the hypotheses are met by ordinary lines -/
+example : line ([' ', ' '] ++ (['N', 'O', 'P'] ++ ([' ', '\t'] ++ [';', ' ', 'x']))) = .ok (.codeLine none (opOfWord (lower ['N', 'O', 'P'])) []) :=
+  bare_instruction_line _ _ _ _ (by unfold blanks; decide) ⟨'N', ['O', 'P'], rfl, by decide, by decide⟩ (by unfold blanks; decide)
+    (Or.inr ⟨Or.inl rfl, rfl⟩)
+example : line (['l', '1'] ++ ':' :: ([] ++ (['s', 'e', 'i'] ++ ([] ++ ['/', '/', 'x'])))) = .ok (.codeLine (some (lower ['l', '1'])) (opOfWord (lower ['s', 'e', 'i'])) []) :=
+  labelled_bare_instruction_line _ _ _ _ _ ⟨'l', ['1'], rfl, by decide, by decide⟩ (by unfold blanks; decide) ⟨'s', ['e', 'i'], rfl, by decide, by decide⟩ (by unfold blanks; decide)
+    (Or.inr ⟨Or.inr rfl, rfl⟩)
 
 /-! non-vacuity: 26 in the five spellings, followed by a comma -/
 example : eConst "26,".toList = some (26, [',']) ∧ eConst "0x1A,".toList = some (26, [',']) ∧
